@@ -34,7 +34,7 @@ RULE = ("fault site = each layer of the transport stack (network, segments, nois
         "protocol layer group and the application, x direction (down/up) x position of the failing operation in generated sequences "
         "of 2-3 sender tasks (1-3 stanzas each) and 0-3 incoming stanzas, interleaved by a generated schedule; natural faults: "
         "unencodable attribute value, frames from the smallest size that does not fit (2^24 - 16 bytes of plaintext) upward, send before login, undecodable server frame, picture notification without "
-        "set/delete, stream:error without type, raising application callback; follow-ups: a send from a new thread, a send from a "
+        "set/delete, stream:error without type, raising application callback (on a receipt, or on the reply to a ping the application sent itself); follow-ups: a send from a new thread, a send from a "
         "thread that already failed, an incoming stanza, then a disconnect + reconnect + the same follow-ups. enumerated: every "
         "(site, direction, variant) with a fixed sequence; generated: the rest. Login race: 2-4 stanzas sent right behind the handshake "
         "reply of a resumed login (1..all of them in the reply's read, the others in reads of their own, delivered up-front or while "
